@@ -76,7 +76,7 @@ theorem imp_cards_unequal_rejected (c : List (Option Float)) (cs : List (List (O
     have : (x :: xs).any (fun y => y.length != c.length) = true := by
       rw [List.any_eq_true]
       exact ⟨d, hd, by simpa using hl⟩
-    simp [importanceCards, this]
+    simp [importanceCards, importanceCardsG, this]
 
 /-- a material card that mixes positive and negative fractions is rejected (whatever nuclides it lists) -/
 theorem mixed_sign_rejected (tokens : List String) (z0 f0 : String) (rest : List (String × String))
